@@ -21,17 +21,19 @@ Next ==
            post == TreeOf(ev.tree)
            listed == {[name |-> x.name, nosel |-> x.nosel, haschildren |-> x.haschildren,
                        hasnochildren |-> x.hasnochildren] : x \in SeqSet(ev.listed)}
-           listedSub == {[name |-> x.name, subscribed |-> x.subscribed] : x \in SeqSet(ev.listed)}
+           listedSub == {[name |-> x.name, subscribed |-> x.subscribed, childinfo |-> x.childinfo] : x \in SeqSet(ev.listed)}
+           recursive == ev.act = "List" /\ ev.sel = "SUBSCRIBED RECURSIVEMATCH"
            bad ==
                (IF ev.probe THEN ConfineBad([escapes |-> Escapes(ev.nm), status |-> ev.status,
                                              outside_changed |-> ev.outside_changed, leaked |-> ev.leaked,
                                              listslot |-> ev.slot \in {"LISTREF", "LISTPAT", "LSUBREF"}])
                 ELSE IF ev.act = "Restart" THEN (IF pre \subseteq post THEN {} ELSE {"C17.RestartKeepsTree"})
                 ELSE NsStepBad(pre, ev, post))
-               \cup (IF ev.act \in {"List", "Lsub"}
+               \cup (IF recursive /\ ev.status = "OK" THEN RecursiveBad(pre, ev.ref, SeqSet(ev.pats), listedSub)
+                     ELSE IF ev.act \in {"List", "Lsub"}
                      THEN ListBad(pre, ev.ref, SeqSet(ev.pats), ev.lsub \/ ev.sel = "SUBSCRIBED", listed, ev.dup)
                      ELSE {})
-               \cup (IF ev.act = "List" /\ (ev.sel = "SUBSCRIBED" \/ ev.ret = "SUBSCRIBED") /\ ev.status = "OK"
+               \cup (IF ev.act = "List" /\ (recursive \/ ev.sel = "SUBSCRIBED" \/ ev.ret = "SUBSCRIBED") /\ ev.status = "OK"
                      THEN SubAttrBad(pre, listedSub) ELSE {})
                \cup DiskDbBad(DiskOf(ev.tree), post)
        IN /\ \A c \in bad : PrintT(<<"VIOL", tid, l, ev.act, c>>)
